@@ -410,7 +410,7 @@ def namedhost_case(seed, model, rep):
             return
         t_acq = time.time()
         judged = 0
-        before = protected_state(repo)
+        events = [["try", 0]]
         while time.time() - t_acq < 0.8:
             api = rng.pick(["ckupdate", "ckupdate", "ckdelete", "run"])
             p = repo.popen(APIS[api])
@@ -419,6 +419,7 @@ def namedhost_case(seed, model, rep):
             if holder.poll() is not None:
                 break
             judged += 1
+            events.append(["timeout" if "Bind timed out" in err else "try", judged])
             rep.count("namedhost_contender_timeout" if "Bind timed out" in err else "namedhost_contender_refused" if is_lock_error(err) else "namedhost_contender_other")
             if p.returncode == 0 or not (is_lock_error(err) or "Bind timed out" in err):
                 rep.oracle_fail({"kind": "an invocation that tried to acquire while another held the lock did not fail with the lock error",
@@ -434,6 +435,12 @@ def namedhost_case(seed, model, rep):
         rep.count("namedhost_cases")
         rep.count("namedhost_contenders_judged", judged)
         if judged:
+            # the lock machine: whether refused or timed out, every contender exited with the lock
+            # error status and the holder still holds
+            m = model.ask({"op": "lock", "n": judged + 1, "events": events})
+            exp = [p["pc"] for p in m["procs"]]
+            if exp[0] != "holding" or m["lock"] != 0 or any(e != ["exited", 2] for e in exp[1:]) or any(p["effects"] for p in m["procs"][1:]):
+                rep.disagree({"kind": "model predicts a different outcome", "case": case, "model": exp[:8]})
             rep.nontrivial_case(case)
     finally:
         repo.done()
